@@ -317,6 +317,7 @@ deriving DecidableEq, Repr
 inductive Payload (K : Type) where
   | mats (l : List (M3 K))
   | nums (l : List K)
+deriving DecidableEq
 
 structure SObj (K : Type) where
   inp : SIn K
